@@ -135,3 +135,10 @@ def run(project, chk):
     from checks._borrow import borrow
     borrow(project, chk, "C12", {"B3", "B4"}, "F6", "make_readable_bulk's status is is_readable.lower() of ColorPair(returned colour, the entry's background, the entry's size) (the status rule of C12, discharged here)",
            only=lambda f: "status" in f.message or "label" in f.message)
+    # ... and of this entry's own size: a name handed to ColorPair(...) must not be carried over from an earlier entry (C12's B2)
+    import ast as _ast
+    fb = project.func("cm_colors.core.cm_colors.make_readable_bulk")
+    pair_args = {x.id for c in _ast.walk(fb.node) if isinstance(c, _ast.Call) and isinstance(c.func, _ast.Name) and c.func.id == "ColorPair"
+                 for a in list(c.args) + [k.value for k in c.keywords] for x in _ast.walk(a) if isinstance(x, _ast.Name)}
+    borrow(project, chk, "C12", {"B2"}, "F7", "the size and colours a bulk entry is labelled with are its own: nothing handed to ColorPair(...) is carried over from an earlier entry (the loop-carried rule of C12, restricted to ColorPair's arguments)",
+           only=lambda f: f.message.split(" ", 1)[0] in pair_args)
